@@ -238,6 +238,24 @@ def b_native(B):
     for ns, rate in ((7009, 30000.6), (3805, None)):
         bad = native_lf(rng, ns, [3000, 6000], rate=rate)
         B.case(("lf_calibrated_rate", ns, rate or 30000), not bad, detail=bad[:4], inputs={"ns": ns, "imSampRate": rate or 30000})
+    # the low-pass / decimation step on its own, for channel counts other than 384 (a saved channel subset): every channel is filtered, each like on its own
+    d = tempfile.mkdtemp(prefix="c12_")
+    try:
+        ap, _ = C03._mk_np24(d, 0.5, 8192, 3000, rng=rng)
+        conv = neuropixel.NP2Converter(ap, post_check=False, compress=False)
+        conv.init_params(nwindow=1200)
+        badx = []
+        for nch in (1, 5, 97, 200, 385):
+            x = np.cumsum(rng.standard_normal((nch, 1200)) * 1e-5, axis=1) + 1e-4
+            got = conv.extract_lfp(x.copy())
+            want = np.vstack([conv.extract_lfp(x[i:i + 1].copy()) for i in range(nch)])
+            if got.shape != (nch, 100) or not np.allclose(got, want, rtol=1e-9, atol=1e-12):
+                rows = np.flatnonzero(~np.isclose(got, want, rtol=1e-9, atol=1e-12).all(axis=1)) if got.shape == want.shape else []
+                badx.append({"channels": nch, "shape": got.shape, "channels that differ from the channel filtered on its own": np.asarray(rows)[:6].tolist()})
+        conv.sr.close()
+        B.case("extract_lfp_every_channel_count", not badx, detail=badx[:3], inputs={"kind": "extract_lfp_channels"})
+    finally:
+        shutil.rmtree(d, ignore_errors=True)
     # the single-shank path (NP2.1) goes through its own window loop: 1, 2 and 3+ windows
     for ns in lens[:1] if B.tier == "quick" else lens[::4]:
         bad = native_lf(rng, ns, [12 * 777, 6000, 3000], version="NP2.1")
